@@ -309,6 +309,10 @@ def _m_format(it, v, args, kwargs, node):
     return out
 
 
+def _m_translate(it, v, args, kwargs, node):
+    return seqops.opaque_fresh(it, v.kind, 'translate', deps=(v,), tags=value_tags(v))
+
+
 def _m_join(it, v, args, kwargs, node):
     arg = it.resolve(args[0])
     if isinstance(arg, GenCallV):
@@ -367,7 +371,7 @@ SEQ_METHODS = {
     'isalpha': _charclass('isalpha'), 'isalnum': _charclass('isalnum'), 'isspace': _charclass('isspace'),
     'upper': _m_upper, 'lower': _m_lower, 'rstrip': _m_strip('rstrip'), 'lstrip': _m_strip('lstrip'),
     'strip': _m_strip('strip'), 'ljust': _m_just('<'), 'rjust': _m_just('>'), 'zfill': _m_zfill,
-    'format': _m_format, 'join': _m_join, 'hex': _m_hex, 'split': _m_generic_seq('split'),
+    'format': _m_format, 'translate': _m_translate, 'join': _m_join, 'hex': _m_hex, 'split': _m_generic_seq('split'),
     'replace': _m_generic_seq('replace'), 'find': _m_generic_seq('find'), 'count': _m_generic_seq('count'),
     'splitlines': _m_generic_seq('splitlines'), 'title': _m_generic_seq('title'),
 }
@@ -954,6 +958,10 @@ def e_dict_fromkeys(it, args, kwargs, node):
     return d
 
 
+def e_maketrans(it, args, kwargs, node):
+    return SymV(it.fresh('transtable'), 'ext', origin=('maketrans', list(args)))
+
+
 def e_partial(it, args, kwargs, node):
     if not args:
         return UnkV('partial')
@@ -1250,7 +1258,7 @@ EXT = {
     'struct.unpack': e_struct_unpack, 'struct.pack': e_struct_pack, 'struct.calcsize': e_struct_calcsize,
     'binascii.hexlify': e_hexlify, 'binascii.b2a_hex': e_hexlify,
     'binascii.unhexlify': e_unhexlify, 'binascii.a2b_hex': e_unhexlify,
-    'dict.fromkeys': e_dict_fromkeys, 'functools.partial': e_partial, 'operator.methodcaller': e_methodcaller, 'operator.itemgetter': e_itemgetter,
+    'str.maketrans': e_maketrans, 'bytes.maketrans': e_maketrans, 'dict.fromkeys': e_dict_fromkeys, 'functools.partial': e_partial, 'operator.methodcaller': e_methodcaller, 'operator.itemgetter': e_itemgetter,
     'operator.attrgetter': e_attrgetter, 'itertools.compress': e_compress, 'itertools.chain': e_chain, 'itertools.chain.from_iterable': e_chain_from_iterable,
     'itertools.islice': e_islice, 'itertools.accumulate': e_accumulate,
     'contextlib.ExitStack': e_exitstack, 'contextlib.contextmanager': e_contextmanager,
